@@ -81,7 +81,7 @@ pub fn profile(prop: &str, thorough: bool) -> Option<Profile> {
             prop: "C04",
             name: "rotation",
             ops: (30, 55),
-            w: Weights { rekey: 9, keygen: 5, refresh: 8, encaps: 9, matrix: 4, ..z },
+            w: Weights { rekey: 9, keygen: 5, refresh: 8, encaps: 9, roundtrip: 3, matrix: 4, ..z },
             max_attrs: 3,
             ..base
         },
@@ -133,7 +133,7 @@ pub fn profile(prop: &str, thorough: bool) -> Option<Profile> {
             prop: "C11",
             name: "hybridization",
             ops: (20, 35),
-            w: Weights { add_attr: 2, del_attr: 2, disable: 2, update: 4, rekey: 6, prune: 1, keygen: 5, refresh: 6, encaps: 12, roundtrip: 4, recaps: 1, matrix: 2, ..z },
+            w: Weights { add_attr: 2, del_attr: 3, disable: 3, update: 5, rekey: 6, prune: 1, keygen: 5, refresh: 6, encaps: 12, roundtrip: 4, recaps: 5, matrix: 2, ..z },
             random_hints: true,
             omega_targets: true,
             max_encs: 10,
